@@ -2,6 +2,7 @@ pub mod cli;
 pub mod gen;
 pub mod gprog;
 pub mod jq;
+pub mod laws;
 pub mod manual;
 pub mod mval;
 pub mod refi;
